@@ -493,3 +493,66 @@ func TestC14Churn(t *testing.T) {
 	}
 	vWriteJSON(t, "VERIF_OUT", map[string]interface{}{"connections": total, "bad": bad})
 }
+
+// A client that connects and then stays silent (no SSH version string) for longer than any plausible handshake timeout.
+// While it is there the server counts it; when it goes the slot comes back once - never twice: afterwards exactly
+// MaxConnections further connections are served.  (Runs beside the history replay, in a process of its own.)
+func TestC14Silent(t *testing.T) {
+	vInit("none")
+	dir, _ := os.MkdirTemp("", "c14s-")
+	defer os.RemoveAll(dir)
+	cwd, _ := os.Getwd()
+	defer os.Chdir(cwd)
+	c14Setup(t, dir)
+	max := 2
+	srv := c14Start(t, max)
+	defer srv.cancel()
+	var bad []string
+	wait := 12
+	fmt.Sscanf(os.Getenv("VERIF_SILENT_S"), "%d", &wait)
+	silent, err := net.DialTimeout("tcp", srv.addr, time.Second)
+	if err != nil {
+		t.Fatal(err)
+	}
+	lowest := 1
+	for i := 0; i < wait*10; i++ {
+		time.Sleep(100 * time.Millisecond)
+		if n := srv.counter(); n < lowest {
+			lowest = n
+		}
+	}
+	if lowest < 0 {
+		bad = append(bad, fmt.Sprintf("the count went down to %d while one silent connection was open", lowest))
+	}
+	silent.Close()
+	n := srv.settle()
+	for dl := time.Now().Add(5 * time.Second); n != 0 && time.Now().Before(dl); {
+		time.Sleep(50 * time.Millisecond)
+		n = srv.settle()
+	}
+	if n != 0 {
+		bad = append(bad, fmt.Sprintf("after the silent connection went away the server reports %d open connections", n))
+	}
+	// exactly max connections are served now
+	var held []net.Conn
+	served := 0
+	for i := 0; i < max+2; i++ {
+		tcp, err := net.DialTimeout("tcp", srv.addr, time.Second)
+		if err != nil {
+			break
+		}
+		held = append(held, tcp)
+		br := bufio.NewReader(tcp)
+		tcp.SetReadDeadline(time.Now().Add(3 * time.Second))
+		if _, err := br.Peek(1); err == nil {
+			served++
+		}
+	}
+	if served != max {
+		bad = append(bad, fmt.Sprintf("after a silent connection of %d s, %d simultaneous connections are served with MaxConnections = %d", wait, served, max))
+	}
+	for _, c := range held {
+		c.Close()
+	}
+	vWriteJSON(t, "VERIF_OUT", map[string]interface{}{"bad": bad, "seconds": wait})
+}
